@@ -4,7 +4,7 @@
    build_pattern, match_item, filter_model = pattern.go), spec/AlgoSpec.v (the per-kind predicates).
    [matchers_decide co sc] (proofs/PatternProofs.v) is the interface to C02: each matcher of algo.go never fails and
    answers NoMatch exactly when the AlgoSpec predicate of its kind is false (+ normalising twice = once). *)
-From Fzf Require Import Prelude AlgoSpec AlgoModel QuerySpec PatternModel PatternProofs.
+From Fzf Require Import Prelude AlgoSpec AlgoModel QuerySpec PatternModel PatternProofs PatternInst PatternFinal.
 Open Scope Z_scope.
 
 (* parseTerms computes the documented grammar: for EVERY string without a literal TAB and every option
@@ -36,6 +36,29 @@ Theorem filter_exact : forall co sc, matchers_decide co sc -> forall o q lines, 
             filter_model co sc p lines = Ok (filter (sat_query co sc (qopts_of o) q) lines).
 Proof. exact filter_exact_pk. Qed.
 Print Assumptions filter_exact.
+
+(* The interface to C02 is discharged: every matcher of algo.go (V1, V2 for every scratch capacity, exact, boundary,
+   prefix, suffix, equal) decides its predicate, under facts about Go's tables that GeneratedCheck_C01 verifies
+   for the real code on every run. *)
+Theorem matchers_decide_holds : forall co sc,
+  (forall c, c < 192 -> co_norm co c = c) -> (forall c, co_norm co (co_norm co c) = co_norm co c) ->
+  bonusBoundary <= s_bw sc -> bonusBoundary <= s_bd sc -> (forall c, 0 <= co_class co c) ->
+  matchers_decide co sc.
+Proof. exact matchers_decide_closed. Qed.
+Print Assumptions matchers_decide_holds.
+
+(* ... so filtering IS exact, unconditionally on the matchers: for every option combination (incl. --algo, --exact,
+   --no-extended, case mode, --literal, scheme), every query in the domain and every list of lines. *)
+Theorem filter_exact_closed : forall co sc,
+  (forall c, c < 192 -> co_norm co c = c) -> (forall c, co_norm co (co_norm co c) = co_norm co c) ->
+  bonusBoundary <= s_bw sc -> bonusBoundary <= s_bd sc -> (forall c, 0 <= co_class co c) ->
+  forall o q lines, domain o q -> Forall line_ok lines ->
+  exists p, build_pattern co o q = Ok p /\
+            filter_model co sc p lines = Ok (filter (sat_query co sc (qopts_of o) q) lines).
+Proof.
+  intros co sc H1 H2 H3 H4 H5. exact (filter_exact_pk co sc (matchers_decide_closed co sc H1 H2 H3 H4 H5)).
+Qed.
+Print Assumptions filter_exact_closed.
 
 (* ... hence no matching line is ever dropped and no non-matching line is ever shown. *)
 Theorem filter_no_drop_no_add : forall co sc, matchers_decide co sc -> forall o q lines, domain o q -> Forall line_ok lines ->
